@@ -87,7 +87,7 @@ def frob(a, b):
 def pos(x):
     """max(x, 0) without forking."""
     if isinstance(x, symex.SymNum):
-        return symex.ite(x > 0, x, 0)
+        return symex.sym_max(x, 0)
     return x if x > 0 else 0
 
 
